@@ -16,7 +16,8 @@ EDGE_RULE = ("exhaustive: breadth-first exploration of the implementation's abst
              "list-growth thresholds, hub histories (a node of degree 20-150 with two-way neighbours, parallel edges, self-loops, removals from the "
              "middle of its lists, isolate), the extremes of the value types, and the same histories on the w* flavours (a non-Copy, heap-owning key "
              "type whose Hash has two values) and the z* flavours (zero-sized node and edge values). C03 also runs histories with two live node objects of one "
-             "key under an identity-based connect contract (not modelled: nodes are keys in the model).")
+             "key under an identity-based connect contract (not modelled: nodes are keys in the model). Every third case of a sync flavour (chosen by a "
+             "hash of the case line) runs its requests on two helper threads in turn - the objects move between threads, nothing runs concurrently.")
 
 NOT_YET = {}
 
@@ -63,8 +64,8 @@ SEARCH_RULE = ("enumerated: every connect sequence (insertion order matters) on 
                "(sparse, dense, DAG, ring, disconnected, self-loops, parallel edges). One case = one graph with all its requests; a request is "
                "non-trivial if it runs a traversal. distinct_nontrivial = number of graph cases. Every generator also produces: builder reuse "
                "(several searches on one builder object, retargeting, graph changes between two calls), the builder's configuration calls in every "
-               "order (kind~n, before or after the closure is attached, conflicting priority calls, transpose() called twice, a first target that is overwritten), closures that start traversals of their own or ask questions while the outer traversal runs (read-only scripts), root handles obtained in different ways (#via), "
-               "graphs of 900-1400 nodes, closed chains of 1100-1600 nodes, hubs of degree up to 90, the extremes of the value types, and the "
+               "order (kind~n, before or after the closure is attached, conflicting priority calls, transpose() called twice, a first target that is overwritten), a closure of the other kind installed first (the later call wins), stages that add an edge into the root after the builder was made, closures that start traversals of their own or ask questions while the outer traversal runs (read-only scripts; every nested answer is compared with the same question asked alone), root handles obtained in different ways (#via), "
+               "graphs of 900-1400 nodes, closed chains of 1100-1600 nodes (every fourth of 4300-4900), soak cases (one long successful search repeated 160 times on one thread), priority-first traversals over node values the closure changes while nodes are queued (C07, judged by the statement alone), two-helper-thread execution of every third sync-flavour case, hubs of degree up to 90, the extremes of the value types, and the "
                "searches/orderings on the w* (colliding key hashes) and z* (zero-sized values) flavours.")
 
 def _search(pid, oracles, theorems, text, technique):
@@ -109,7 +110,7 @@ CONT_RULE = ("enumerated small inputs (all digraphs on <=3/4 nodes for scc; all 
              "CBOR bytes (every single-edit class) compared exactly with the byte-level models; deserialize_in_place into populated graphs; long "
              "runs of one source; scc histories in which members are isolated, removed and brought back; serialisation after edge histories "
              "(removals, edges re-made from the other end), of containers that hold only what is reachable from one node, either format first, and "
-             "round trips over a key type whose Display text and hashes collide (judged by the statement alone); documents of the container with text keys (Graph<String, i64, u32>: empty, long, non-ASCII keys; judged by the "
+             "round trips over a key type whose Display text and hashes collide, over node values changed in place between two serialisations, after a document that was rejected half-way, and documents of a container whose node values are themselves graphs (all judged by the statement alone); DOT exports with stateful attribute callbacks; documents of the container with text keys (Graph<String, i64, u32>: empty, long, non-ASCII keys; judged by the "
              "statement alone, not modelled); two containers sharing nodes, one of them dropped; containers as sole owners of connected nodes; "
              "the w* and z* flavours.")
 _CONT = {
@@ -143,7 +144,7 @@ PROPS["C16"] = {"theorems": [("GdslModel.Props.C16", "G.Traits." + t) for t in [
     "design_ref": "DESIGN.md section 7, C16"}
 
 PROPS["C19"] = {"theorems": [("GdslModel.Props.C19", "G.Own." + t) for t in ["inv_step", "inv_run", "released_once", "no_premature_release", "all_released_at_end", "edges_do_not_own", "held_alive"]], "oracles": ["c19"],
-    "rule": "seeded histories over the four flavours with drop-counting node values: build/use phase (nodes, clones, containers, edges, bfs/dfs paths and cycles, search results, pre/postorderings, found neighbours held in slots; connect, try_connect (accepted and refused), disconnect, isolate, queries from both ends; unconnected nodes come and go; duplicate-key inserts, a second container sharing members), traversals whose closure takes a member out of the container that is its only owner, isolates it and drops it (own.walk), hand-off phase (the original handles are dropped first, so results/containers/clones alone keep nodes alive), tear-down in random order; after every request the set of released values is compared with the model and with the handles actually held. distinct_nontrivial = number of histories.",
+    "rule": "seeded histories over the four flavours with drop-counting node values: build/use phase (nodes, clones, containers, edges, bfs/dfs paths and cycles, search results, pre/postorderings, found neighbours held in slots; connect, try_connect (accepted and refused), disconnect, isolate, queries from both ends; unconnected nodes come and go; duplicate-key inserts, a second container sharing members), traversals whose closure takes a member out of the container that is its only owner, isolates it and drops it (own.walk), caterpillars of 130-160 nodes with every spine node once as the target of a search that stops early, hand-off phase (the original handles are dropped first, so results/containers/clones alone keep nodes alive), tear-down in random order; after every request the set of released values is compared with the model and with the handles actually held. distinct_nontrivial = number of histories.",
     "exhaustive": False,
     "level_text": "Machine-checked proof (Lean 4) about the ownership-accounting model (strong handles held by program slots: node handles, edges, paths, search results, containers; adjacency entries weak): after every history a node value is released exactly when no slot mentions its key - at most once, never while a handle is held, always once the last handle is gone - for any graph shape (cycles, self-loops, still-connected nodes) and drop order; results of traversals (bfs/dfs paths and cycles, searches, pre/postorder, find_*) only ever hold alive nodes (uses the BFS/DFS/ordering soundness theorems); connect, try_connect, disconnect, isolate and every query create and drop no handle, whatever they do to the adjacency lists (the theorems quantify over an arbitrary effect function mutF). That Rc/Arc/Weak implement this accounting is trusted std semantics; the tie to the four flavours is the correspondence with drop-counting node values (released sets compared after every request of seeded histories with build, hand-off and tear-down phases) and a direct oracle on the handles actually held.",
     "level_note": CORR_NOTE, "technique": "Lean 4 invariant proof over the ownership-accounting model + model/implementation correspondence with drop-counting payloads + held-handle oracle", "design_ref": "DESIGN.md section 7, C19"}
@@ -158,7 +159,7 @@ PROPS["C17"] = {"theorems": [("GdslModel.Props.C17", "G.Conc." + t) for t in ["d
 
 PROPS["C15"] = {"theorems": [("GdslModel.Props.C15", "G.Sync." + t) for t in ["di_single_refines", "un_single_refines", "di_run_eq_plain", "un_run_eq_plain", "query_refines", "iter_next_refines"]],
     "oracles": ["c15"],
-    "rule": "every generated single-threaded program (edge histories with random handle provenance, all search/cycle/ordering configurations with callbacks and filters, container histories, scc, DOT, serde round trips, comparisons) is run on digraph and sync_digraph resp. ungraph and sync_ungraph; the two implementation streams are compared line by line (container-order-dependent results as sets), and each stream is compared with the model; histories with two live node objects of one key and ownership histories (the executor holds exactly the handles the program names; traversals whose closure drops the last owner) are compared between the two implementations only; distinct_nontrivial = number of programs.",
+    "rule": "every generated single-threaded program (edge histories with random handle provenance, all search/cycle/ordering configurations with callbacks and filters, container histories, scc, DOT, serde round trips, comparisons) is run on digraph and sync_digraph resp. ungraph and sync_ungraph; the two implementation streams are compared line by line (container-order-dependent results as sets), and each stream is compared with the model; histories with two live node objects of one key and ownership histories (the executor holds exactly the handles the program names; traversals whose closure drops the last owner) and priority-first traversals over node values the closure changes are compared between the two implementations only; distinct_nontrivial = number of programs.",
     "exhaustive": False,
     "level_text": "Machine-checked proof (Lean 4) that every lock program of the sync flavours (the four mutators with the mutation mutex, queries, the iterator step), run alone from any store, never blocks on a lock it holds itself and computes exactly the plain flavour's function (same final store, same return value), lifted to whole call sequences; the iterator step holds no lock when it returns. Traversals of the sync flavours written as lock programs (bfs/dfs search, preorder: one iterator step after the other) are proved to return, run alone, exactly what the static traversal of the plain model returns on the same lists, without blocking and without touching the store; the serialised document depends on the container's iteration order only through a permutation of its two lists. Everything else above the edge operations and the iterator step (containers, scc, serde, macros) is one model for both members of a pair. The tie to the code is a direct differential of the two implementations on every generated program (no model involved) plus the model correspondence of each; API present in only one member of a pair (Graph::with_capacity, to_dot_with_attr / sizeof of one flavour) is outside 'calls common to both'.",
     "level_note": CORR_NOTE + " The lock programs' acquisition points are validated against the real code by the C17 scheduler correspondence.",
@@ -166,7 +167,7 @@ PROPS["C15"] = {"theorems": [("GdslModel.Props.C15", "G.Sync." + t) for t in ["d
     "design_ref": "DESIGN.md section 7, C15"}
 
 PROPS["C20"] = {"theorems": [("GdslModel.Props.C20", "G.Live." + t) for t in ["iter_yield_exists", "search_yield_exists", "order_yield_exists", "iter_terminates", "search_eq_static", "order_eq_static", "sync_iter_holds_nothing"]], "oracles": ["c20", "mirror"],
-    "rule": "one case = a fresh small graph (all nodes also in a container), one loop (edge iterator out/in/adj; bfs, dfs, pfs-min, pfs-max, preorder, postorder; plain and transposed) whose body / closure runs a script: one operation (connect, try_connect, disconnect, isolate, is_connected, nested bfs, container insert/remove) at one step of the loop - every combination on 2-node graphs (every 6th in the quick tier), scripts that add edges for a bounded number of steps, and random scripts on graphs up to 7 nodes; rewiring closures on 3-node graphs; ownership histories in which a traversal's closure takes a member out of the container that is its only owner, isolates it and drops it; all four flavours with the lock hook on. distinct_nontrivial = number of cases.",
+    "rule": "one case = a fresh small graph (all nodes also in a container), one loop (edge iterator out/in/adj; bfs, dfs, pfs-min, pfs-max, preorder, postorder; plain and transposed) whose body / closure runs a script: one operation (connect, try_connect, disconnect, isolate, is_connected, nested bfs, container insert/remove) at one step of the loop - every combination on 2-node graphs (every 6th in the quick tier), scripts that add edges for a bounded number of steps, and random scripts on graphs up to 7 nodes; rewiring closures on 3-node graphs; mutations the closure hands to another thread and waits for (sync flavours); plain loops driven by a for statement and by Iterator::for_each; ownership histories in which a traversal's closure takes a member out of the container that is its only owner, isolates it and drops it; all four flavours with the lock hook on. distinct_nontrivial = number of cases.",
     "exhaustive": False,
     "level_text": "Machine-checked proof (Lean 4) about the live-loop model (iterators keep only a position and re-read the live list on every step; traversal loops thread an arbitrary program state through every call of the closure, which may connect, disconnect, isolate, touch containers or run nested searches): every edge handed out by an iterator or to a traversal closure is an entry of its source's list in the state at that moment; an edge loop ends within len - pos + 1 steps once the body stops lengthening the list; a closure that does not touch the graph sees exactly the static traversal of C04-C10 (simulation); an iterator step of the sync flavours returns holding no lock, so the closure can take any lock (no self-deadlock), and the plain model has no borrow state between steps. Traversals under mutation terminate as well: with a finite node universe, once the closure stops lengthening lists every search and ordering ends within an explicit fuel bound (search_terminates, *_terminates_from, *_terminates_eventually). Tied to the four flavours by exact correspondence of yielded edges, script results and final graphs: every (graph, loop kind, root, step, operation) combination on 2-node graphs (sampled in quick), bounded edge-adding scripts, random scripts; an oracle re-checks on the real lists that each yielded edge exists when yielded; panics and re-entrant lock requests (lock hook) are failures.",
     "level_note": CORR_NOTE + " Runtime behaviour outside the model: user Clone/Drop/Display impls of payloads that themselves touch the graph while a guard is alive.",
